@@ -243,6 +243,8 @@ def check(ctx: Ctx) -> None:
     _check_load_guard(ctx)
     _check_cleanup(ctx)
     _check_order_insensitive_compare(ctx)
+    from ..idioms import check_exact_matching
+    check_exact_matching(ctx, 'C07.g', [PAR], floor=20)
 
 
 class _Guard(PathInterp):
